@@ -138,6 +138,28 @@ def run_history(case, props=None):
                 out.append(('C09', f'relook {(x, y, z)} on {wk} {W, H, D} raised {type(ex).__name__}: {ex}'))
             if len(out) > 3:
                 break
+    elif kind == 'twin':
+        # C09 with two worlds of one shape alive at once (a batch of models): each world's rows are its own
+        env2 = make(wk, W, H, D)
+        try:
+            env.add_cell_component('c', [100 + i for i in range(ncells)])
+            env2.add_cell_component('c', [900 + i for i in range(ncells)])
+            env2.add_cell_component('only2', [1] * ncells)
+            env3 = make(wk, W, H, D)
+            if list(env3.cells.columns) != ['pos']:
+                out.append(('C09', f'a fresh world starts with cell components {list(env3.cells.columns)}'))
+            for z, y, x in itertools.product(range(d), range(h), range(w)):
+                i = oracle_id(x, y, z, W, H, D)
+                ra, rb = env.get_cell(x, y, z), env2.get_cell(x, y, z)
+                if int(ra['c']) != 100 + i or 'only2' in ra.index or tuple(ra['pos']) != (x, y, z):
+                    out.append(('C09', f'get_cell{(x, y, z)} of the first world returned {dict(ra)}, its own row holds '
+                                       f'c={100 + i} only'))
+                if int(rb['c']) != 900 + i or int(rb['only2']) != 1:
+                    out.append(('C09', f'get_cell{(x, y, z)} of the second world returned {dict(rb)}'))
+                if len(out) > 3:
+                    break
+        except Exception as ex:
+            out.append(('C09', f'two worlds of shape {wk} {W, H, D}: {type(ex).__name__}: {ex}'))
     elif kind == 'nbr':
         mode, cx, cy, cz, radius, incl, rep = case[5:12]
         centre_t = (cx, cy, cz)
@@ -167,11 +189,15 @@ def run_history(case, props=None):
                     out.append(('C10', f'{entry} {mode} query raised {type(ex).__name__}: {ex}'))
                     continue
                 want = exp if ret is tuple else [oracle_id(x, y, z, W, H, D) for x, y, z in exp]
-                if [tuple(g) if ret is tuple else g for g in got] != want:
+                if [tuple(g) if ret is tuple and hasattr(g, '__iter__') else g for g in got] != want:
                     out.append(('C10', f'{entry} {mode} r={radius} centre={centre_t} incl={incl} ret={ret.__name__}: '
                                        f'{list(got)[:12]} expected {want[:12]}'))
                 if ret is int and list(got) != sorted(set(got)):
                     out.append(('C10', 'ids not strictly ascending'))
+                # the answer belongs to the caller: reordering / extending it must not show in any later answer
+                if isinstance(got, list):
+                    got.reverse()
+                    got.append(-5)
     elif kind == 'cells':
         import numpy as np
         ops = case[5]
@@ -285,6 +311,7 @@ def histories(seed, budget, prop='C09'):
             yield ('ids',) + s
         for s in [('line', 3, 0, 0), ('grid', 2, 3, 0), ('discrete', 2, 0, 3), ('discrete', 2, 2, 2)]:
             yield ('relook',) + s
+            yield ('twin',) + s
         for _ in range(budget // 20):
             yield ('ids', 'discrete', rng.randint(0, 6), rng.randint(0, 6), rng.randint(0, 6))
     elif prop == 'C10':
